@@ -153,6 +153,16 @@ def corpus():
     cs.append({"steps": [["new", "QueryBuilder"], _call(0, "from_", _s("t")), _call(1, "select", _s("a")),
                          _call(2, "rollup", {"k": "field", "n": "a"}), _call(3, "rollup", {"k": "field", "n": "b"}),
                          _call(3, "rollup", {"k": "field", "n": "c"})], "theme": "corpus", "twin": False, "repeats": []})
+    # immutable=False through EVERY public entry point of every query class: the option must arrive, every chaining call must
+    # return the one object, and the chain must end in the statement of the immutable twin
+    from harness.c01.world import ENTRY_POINTS, QUERY_CLASSES
+    for kind in QUERY_CLASSES:
+        for ep in ENTRY_POINTS:
+            calls = [_call(0, "from_", _s("t5"))] if ep in ("_builder", "select", "with_") else []
+            calls += [_call(0, "select", _s("a")) if ep not in ("into", "update") else _call(0, "where", _crit("b")),
+                      _call(0, "where", _crit("a")), _call(0, "limit", {"k": "int", "v": 5})]
+            cs.append({"steps": [["new", "mutable:%s@%s" % (kind, ep)]] + calls, "theme": "twin", "twin": True, "repeats": []})
+        cs.append({"steps": [], "probe": kind, "theme": "probe", "twin": False, "repeats": []})
     # immutable=False twin
     cs.append({"steps": [["new", "mutable:QueryBuilder"], ["new", "Table:t1"], _call(0, "from_", _r(1)), _call(0, "select", _s("a")),
                          _call(0, "where", _crit("a", 1)), _call(0, "groupby", _s("a")), _call(0, "orderby", _s("a"))],
@@ -190,8 +200,7 @@ def _twin_run(case, recs, UA):
             outB.append(None)
             continue
         if st[0] == "new":
-            kind = st[1][8:] if st[1].startswith("mutable:") else st[1]
-            mapB[rec["idx"]] = world.factory(kind)
+            mapB[rec["idx"]] = world.factory(world.strip_immutable(st[1]))
             outB.append(world.render(mapB.get(0)) if 0 in mapB else None)
             continue
         recv, m, aspecs, kspecs = st[1], st[2], st[3], st[4]
@@ -222,8 +231,8 @@ def _twin_run(case, recs, UA):
             if exc != rec["exc"]:
                 outB.append("!exception differs: immutable %r, mutable %r" % (exc, rec["exc"]))
             break          # a rejected call ends the comparable part of the chain (what a rejection leaves behind is C14's matter)
-        if rec["ret"] == 0:
-            mapB[0] = res
+        if rec["ret"] == 0 or (recv == 0 and rec["ret_cls"] == rec["recv_cls"]):
+            mapB[0] = res          # the chain: in mutable mode every call on the one object is supposed to return it
         else:
             mapB[rec["ret"]] = res
         prev_joiner = rec["ret"] if rec["ret_cls"] == "queries.Joiner" and recv == 0 else None
@@ -231,8 +240,25 @@ def _twin_run(case, recs, UA):
     return outB + [None] * (len(steps) - len(outB))
 
 
+def _probe(kind):
+    """constructor options through every entry point: what was asked for vs what the builder holds"""
+    from harness.c01 import world
+    out = []
+    for opt, val in (("immutable", False), ("as_keyword", True), ("wrap_set_operation_queries", False)):
+        for ep in world.ENTRY_POINTS:
+            try:
+                o = world.query_entry(kind, ep, {opt: val})
+                got = repr(vars(o).get(opt, "<missing>"))
+            except Exception as e:  # noqa  (ClickHouse fixes as_keyword/wrap itself: TypeError, nothing to compare)
+                got = "!" + type(e).__name__
+            out.append([world.QUERY_CLASSES[kind], ep, opt, repr(val), got])
+    return out
+
+
 def run_impl(case):
     from harness.c01 import run, world
+    if case.get("probe"):
+        return {"steps": [], "probe": _probe(case["probe"])}
     _, tab = _table()
     r = run.Runner(tab)
     rendA = []
@@ -262,6 +288,8 @@ def _delta(delta):
 def to_coq(case, outcome):
     if "harness_exc" in outcome:
         raise RuntimeError(outcome["harness_exc"])
+    if case.get("probe"):
+        return None             # constructor-option probe: oracle only
     cs = []
     for rec in outcome["steps"]:
         if rec["kind"] == "skip":
@@ -283,7 +311,16 @@ def oracle(case, outcome):
     if "harness_exc" in outcome:
         return [{"signature": ["C01", "harness", "crash"], "what": outcome["harness_exc"]}]
     out = []
+    for qn, ep, opt, want, got in outcome.get("probe", []):
+        if got != want and not got.startswith("!"):
+            out.append({"signature": ["C01", "%s.%s" % (qn, ep), "mutable-mode" if opt == "immutable" else "constructor-option", opt],
+                        "what": "%s.%s(..., %s=%s) returns a builder whose %s is %s: the option does not survive this entry point"
+                                % (qn, ep, opt, want, opt, got)})
     for k, rec in enumerate(outcome["steps"]):
+        if rec["kind"] == "new" and rec.get("requested", {}).get("immutable") is False and rec["observed"].get("immutable") != "False":
+            out.append({"signature": ["C01", "%s.%s" % (rec["pyclass"], rec["entry"]), "mutable-mode", "option-dropped"],
+                        "what": "step %d: %s constructed with immutable=False holds immutable=%s"
+                                % (k, rec["factory"], rec["observed"].get("immutable"))})
         if rec["kind"] != "call":
             continue
         alias_written = any(ch["what"] == "alias" for ch in rec["changes"])
